@@ -683,7 +683,10 @@ impl<T: Elem, V: Vecish<T>> Runner<T, V> {
 /// the property a disagreement at this operation concerns (the coordinator's check filters on it)
 fn prop_of(op: &Op) -> &'static str {
     match op {
-        Op::Rollback | Op::RollbackBefore(_) | Op::Commit(_) | Op::StampedWrite(_) => "C04",
+        // the outcome of a rollback concerns both "a rollback restores the previous committed state" (C04)
+        // and "exactly the retained records can be rolled back; a refusal rather than a guess" (C16)
+        Op::Rollback | Op::RollbackBefore(_) => "C04+C16",
+        Op::Commit(_) | Op::StampedWrite(_) => "C04",
         Op::XDelete(_) | Op::XTrunc(..) | Op::XOver(..) => "C16",
         _ => "C03",
     }
